@@ -45,7 +45,7 @@ CLAIMS = {
     "C08": {
         "engine": "ai", "technique": AI_TECH + "; const-evaluated table comparison",
         "design_ref": "DESIGN.md §4 C08",
-        "text": "Decides that both identification carriers read the eight 6-bit characters f[40..88) in order, that exactly code 32 is dropped and every kept character depends on its own 6 bits, that the evaluated 64-entry table equals the Annex 10 set, and the type-coding/category fields. BDS selection by 0x20 is decided under C10.",
+        "text": "Decides that both identification carriers read the eight 6-bit characters f[40..88) in order, that exactly code 32 is dropped and every kept character depends on its own 6 bits, that the evaluated 64-entry table equals the Annex 10 set, and the type-coding/category fields; that no placeholder rendering the identification carries a precision (which would cut it off); and that no full-length frame of either carrier is rejected. BDS selection by 0x20 is decided under C10.",
         "note": TRUST,
     },
     "C09": {
@@ -75,13 +75,13 @@ CLAIMS = {
     "C13": {
         "engine": "ai", "technique": "abstract interpretation of the tracker's position update against a tagged symbolic record (get_position stubbed); polynomial normal form of the distance",
         "design_ref": "DESIGN.md §4 C13",
-        "text": "Decides: the pairing call gets the new report in the slot of its parity plus the stored other slot; every rejecting path ends with the empty record; rejection/publication are guarded by `haversine(receiver, candidate) > max_range` and `> 100.0` from the previous position; the published distance's normal form is the haversine formula with R = 6371. Numeric accuracy / threshold behaviour of f64 are not decided; the history-level claim follows by induction (not mechanised). Also decides that the 100 km test measures the haversine distance between the previous position and the candidate, and that a candidate passing both tests never ends with the record emptied.",
+        "text": "Decides: the pairing call gets the new report in the slot of its parity plus the stored other slot; every rejecting path ends with the empty record; rejection/publication are guarded by `haversine(receiver, candidate) > max_range` and `> 100.0` from the previous position; the published distance's normal form is the haversine formula with R = 6371. Numeric accuracy / threshold behaviour of f64 are not decided; the history-level claim follows by induction (not mechanised). Also decides that the 100 km test measures the haversine distance between the previous position and the candidate, and that a candidate passing both tests never ends with the record emptied. The views (C14's rule, filed here as V-R2) hand out each record's own position under its own address, also with several aircraft of which only some have a position.",
         "note": TRUST,
     },
     "C14": {
         "engine": "ai", "technique": "abstract interpretation of Airplanes::action / aircraft_details / all_position against tagged symbolic records; enumeration of record shapes for the views",
         "design_ref": "DESIGN.md §4 C14",
-        "text": "Decides per frame kind which of callsign/heading/speed/vertical rate are overwritten and with which of the frame's own values (others untouched); that position and distance are written together; that the element appended to the track is the old record; and, over all 24 Some/None shapes of a record, that aircraft_details is Some exactly for position+altitude+distance and copies the record's own values, and all_position lists exactly the records with a position. History-level ordering follows by induction (not mechanised). The record may keep its previous velocity only on paths where calculate() returned None (traced returns).",
+        "text": "Decides per frame kind which of callsign/heading/speed/vertical rate are overwritten and with which of the frame's own values (others untouched); that position and distance are written together; that the element appended to the track is the old record; and, over all 24 Some/None shapes of a record, that aircraft_details is Some exactly for position+altitude+distance and copies the record's own values, and all_position lists exactly the records with a position (one arbitrary record, and fully known maps of 2 and 4 records in every with/without-position order). History-level ordering follows by induction (not mechanised). The record may keep its previous velocity only on paths where calculate() returned None (traced returns).",
         "note": TRUST,
     },
     "C15": {
@@ -105,19 +105,19 @@ CLAIMS = {
     "C11": {
         "engine": "tmpl", "technique": "abstract interpretation of <Frame as Display>::fmt on every decoded frame kind, linked to AST format sites; bit-provenance matching of printed values against decoded fields",
         "design_ref": "DESIGN.md §4 C11",
-        "text": "Decides: the value printed after a label of a known class is the frame's own decoded field with exactly that bit provenance; the address source per format (checksum vs announced); presence of optional lines vs their condition bits (heading-valid, ACAS, HRD, L/W, vertical rate > 0, altitude > 0, velocity available); enum variant -> word maps; non-empty report for every supported frame kind on every path. Byte-exact output / float formatting are NOT decided; label wording around the keyword is free.",
+        "text": "Decides: the value printed after a label of a known class is the frame's own decoded field with exactly that bit provenance; the address source per format (checksum vs announced); presence of optional lines vs their condition bits (heading-valid, ACAS, HRD, L/W, vertical rate > 0, altitude > 0, velocity available, the operational-mode and target-state mode words against their own decoded flags); a position report's decoded altitude is printed on every rendering path; no truncating format spec on a decoded value; placeholders are matched to run-time arguments in the compiler's (argument, trait) order; enum variant -> word maps; non-empty report for every supported frame kind on every path. Byte-exact output / float formatting are NOT decided; label wording around the keyword is free.",
         "note": TRUST,
     },
     "C16": {
         "engine": "graph", "technique": "CFG must-pass-through / must-avoid rules and panic-site inventory on the MIR of both client mains",
         "design_ref": "DESIGN.md §4 C16",
-        "text": "Decides ONLY a structural skeleton (the statement quantifies over TCP segmentations and delays, which static analysis cannot reach): every path from a complete line to the next read_line empties the buffer; no path from a failed/timed-out read_line empties it; no panic site lies between read_line and the decode call (except allow-listed ones with a reason); Ok(0) flags the disconnect and the tracker is created once outside the loop.",
+        "text": "Decides ONLY a structural skeleton (the statement quantifies over TCP segmentations and delays, which static analysis cannot reach): every path from a complete line to the next read_line empties the buffer; no path from a failed/timed-out read_line empties it; no panic site lies between read_line and the decode call (except allow-listed ones with a reason); Ok(0) flags the disconnect (a read error does not) and the tracker is created once outside the loop; the reconnect helper, interpreted path by path from the state main calls it in after a disconnect, gives up (Ok(None)) only on paths that recorded an operator quit.",
         "note": TRUST,
     },
     "C17": {
         "engine": "graph", "technique": "CFG must-pass-through for terminal teardown; call-graph reachability; allow-listed panic-site inventory of the UI code",
         "design_ref": "DESIGN.md §4 C17",
-        "text": "Decides ONLY a structural skeleton: every Ok(()) exit of radar::main after raw-mode setup passes disable_raw_mode, DisableMouseCapture and show_cursor; every panic site reachable from the key/mouse handlers, draw functions and statistics update is allow-listed with a reason; CLI value parsers have no panic site; the UI cannot reach tracker mutators. NOT decided: all event sequences x terminal sizes, crossterm/ratatui internals, emitted escape codes.",
+        "text": "Decides ONLY a structural skeleton: every Ok(()) exit of radar::main after raw-mode setup passes disable_raw_mode, DisableMouseCapture and show_cursor; every panic site reachable from the key/mouse handlers, draw functions and statistics update is allow-listed with a reason or discharged by a dominating comparison of the same value (a >= c for a - c, d >= 1 for / and %, i < v.len() for i + 1 and v[i], widened operands for signed sums); the quit reason is cleared only once a new connection exists and the reconnect helper leaves a reason set on every Ok(None) path; CLI value parsers have no panic site; the UI cannot reach tracker mutators. NOT decided: all event sequences x terminal sizes, crossterm/ratatui internals, emitted escape codes.",
         "note": TRUST,
     },
     "C18": {
@@ -129,7 +129,7 @@ CLAIMS = {
     "C01": {
         "engine": "ai", "technique": "static panic-site inventory + discharge of every site by path-sensitive abstract interpretation (intervals, bit provenance, exact linear forms) under decode-established field invariants; call-graph acyclicity and iterator-driven loops; allocation-size provenance",
         "design_ref": "DESIGN.md §4 C01",
-        "text": "Decides: every panic site (overflow/bounds asserts, unwrap/expect, slice/str indexing, explicit panics) in library functions reachable from from_bytes/from_reader, Display, calculate, get_position, Airplanes::action and the views is visited by an abstract run and proved safe on every visit, or allow-listed with a reason (3 entries); the reachable call graph is acyclic and every loop is iterator-driven; allocation sizes seen during abstract decoding are small constants. Buffer lengths are explored as a finite set (longer buffers are equivalent because trailing bytes are never read). NOT decided: panics inside dependencies, OOM, stack depth.",
+        "text": "Decides: every panic site (overflow/bounds asserts, unwrap/expect, slice/str indexing, explicit panics) in library functions reachable from from_bytes/from_reader, Display, calculate, get_position, Airplanes::action and the views is visited by an abstract run and proved safe on every visit, or allow-listed with a reason (3 entries); the reachable call graph is acyclic, every loop is iterator-driven or was iterated and left on every path of the exhaustive exploration, and no path re-enters a block in an identical complete state without a fork in between (non-progress = hang); allocation sizes seen during abstract decoding are small constants. Buffer lengths are explored as a finite set (longer buffers are equivalent because trailing bytes are never read). NOT decided: panics inside dependencies, OOM, stack depth.",
         "note": TRUST,
     },
     "C03": {
